@@ -12,7 +12,8 @@ use syn;
 use std::sync::atomic::{AtomicBool, AtomicU64, Ordering};
 use std::sync::Mutex;
 
-pub const ENV_NAMES: [&str; 32] = [
+pub const ENV_NAMES: [&str; 34] = [
+    "PATH", "PATH",
     "CARGO", "CARGO_MANIFEST_DIR", "CARGO_PKG_NAME", "CARGO_PKG_VERSION", "CARGO_CRATE_NAME",
     "CARGO_TARGET_DIR", "CARGO_FEATURE_UNIMOCK", "CARGO_CFG_TEST", "CARGO_PRIMARY_PACKAGE",
     "CARGO_BUILD_JOBS", "RUSTFLAGS", "RUSTC_BOOTSTRAP", "RUSTC_WRAPPER", "PROFILE", "DEBUG",
@@ -132,6 +133,16 @@ impl Workload {
         }
     }
 
+    /// `PATH` gets values that make sense for it: the simulated machine has a directory of
+    /// stand-in tools (`$SCRATCH/bin`: rustfmt, rustc, cargo, git, ... — each copies stdin to
+    /// stdout and appends a marker item) that a macro spawning an external program would find.
+    pub fn env_value_for(&self, name: &str, rng: &mut Rng) -> String {
+        if name == "PATH" {
+            return (*rng.pick(&["$SCRATCH/bin", "$SCRATCH/bin:/usr/bin:/bin", "/usr/bin:/bin", "", "/nonexistent"])).to_string();
+        }
+        self.env_value(rng)
+    }
+
     pub fn env_value(&self, rng: &mut Rng) -> String {
         if !self.src_env_values.is_empty() && rng.chance(250) {
             rng.pick(&self.src_env_values).clone()
@@ -245,7 +256,9 @@ pub fn gen_plan(rng: &mut Rng, w: &Workload) -> (Plan, Swarm) {
         if rng.chance(600) {
             let n_env = rng.below(6);
             for _ in 0..n_env {
-                env.push((w.env_name(rng), w.env_value(rng)));
+                let n = w.env_name(rng);
+                let v = w.env_value_for(&n, rng);
+                env.push((n, v));
             }
         }
         epochs.push(Epoch {
@@ -290,7 +303,11 @@ fn gen_decision(rng: &mut Rng, s: &Swarm, w: &Workload) -> Decision {
     acc += s.env;
     if r < acc {
         return if rng.chance(650) {
-            Decision::EnvSet(w.env_name(rng), w.env_value(rng))
+            {
+                let n = w.env_name(rng);
+                let v = w.env_value_for(&n, rng);
+                Decision::EnvSet(n, v)
+            }
         } else {
             Decision::EnvUnset(w.env_name(rng))
         };
@@ -347,6 +364,7 @@ impl References {
         }
         let plan_a = Plan::solo(p, 0x0123_4567_89ab_cdef ^ key, 1_790_000_000);
         let mut plan_b = Plan::solo(p, 0xfedc_ba98_7654_3210 ^ key.rotate_left(13), 17);
+        plan_b.epochs[0].env = vec![("PATH".to_string(), "$SCRATCH/bin:/usr/bin:/bin".to_string())];
         plan_b.epochs[0].argv = ["--test", "--crate-name", "ref_b", "--edition=2021", "--cfg", "test", "-C", "opt-level=3"].iter().map(|s| s.to_string()).collect();
         // the second solo session runs the macro as built WITH debug assertions (and overflow
         // checks) when that flavour of the simulator exists: what `cargo build` vs
